@@ -72,4 +72,24 @@ def readFullAux (c : Stream) (n : Nat) (acc : Bytes) : Except ReadErr (Bytes × 
 def readFull (c : Stream) (n : Nat) : Except ReadErr (Bytes × Stream) :=
   readFullAux c n []
 
+/-- A Go `for cond { body }` loop over the loop-carried state `σ`, with an iteration bound: after `fuel`
+iterations the state is returned as it is (theorems about generated loops say how much fuel suffices). -/
+def loop {σ : Type} (fuel : Nat) (cond : σ → Bool) (body : σ → σ) (s : σ) : σ :=
+  match fuel with
+  | 0 => s
+  | n + 1 => if cond s then loop n cond body (body s) else s
+
+/-- `a.Compare(b)` of two totally ordered values given as naturals (`netip.Addr.Compare` on 128-bit
+addresses of the same family): -1, 0, +1. -/
+def cmpNat (a b : Nat) : Int := if a < b then -1 else if a = b then 0 else 1
+
+/-- A stored `netip.Prefix` over 128-bit addresses: (base address, prefix length). -/
+abbrev Pfx := Nat × Nat
+
+/-- `p.Contains(a)` for a 128-bit address: the leading `bits` bits agree. -/
+def pfxContains (p : Pfx) (a : Nat) : Bool := a / 2 ^ (128 - p.2) == p.1 / 2 ^ (128 - p.2)
+
+/-- `e[i]` of a slice of prefixes (out of range, which panics in Go, is totalised to `(0, 0)`). -/
+def pfxAt (e : List Pfx) (i : Int) : Pfx := e.getD i.toNat (0, 0)
+
 end Go
